@@ -326,9 +326,10 @@ def run(chk):
     ok_loop = not loop_msgs
     r2.require(ok_loop, f"{pr.key}|iterates-stored-keys", pr.where(), "_predict must iterate the stored sub-model keys, route rows with that key and label the frame built on those rows with it" + (": " + loop_msgs[0] if loop_msgs else ""))
     idf = method(chk, dm, "_initialize_data")
-    t = unparse(idf.node)
-    r2.require("meter_data['season'] = meter_data.index.month.map(self.settings.season._num_dict)" in t and "meter_data['day_of_week'] = meter_data.index.dayofweek + 1" in t,
-               f"{idf.key}|routing-columns-from-own-settings", idf.where(), "season / day_of_week routing columns must be computed from the model's own season map and the date's weekday (1 = Monday)")
+    from rules.daily_predict import initialize_outcomes, judge_initialize
+    rmsgs = [m for o in initialize_outcomes(chk, idf.cls or dm, idf) for ob, m in judge_initialize(o) if ob == "routing"]
+    r2.require(not rmsgs, f"{idf.key}|routing-columns-from-own-settings", idf.where(),
+               "season / day_of_week routing columns must be computed from the model's own season map and the date's weekday (1 = Monday)" + (": " + rmsgs[0] if rmsgs else ""))
 
     # ------------------------------------------------------------------ R13.3 literals
     fit = method(chk, dm, "_fit")
